@@ -139,7 +139,7 @@ func vpC01Degenerate(codec int) {
 	vpSetField(x, vpFieldIndex(ti, "Name"), 0, 'n')
 	switch fields[f].Kind {
 	case "Items":
-		vpSetField(x, f, 6, 'a')
+		vpSetField(x, f, 16, 'a')
 	case "NLV":
 		if fields[f].Name == "Name" {
 			vpReach("end")
